@@ -46,6 +46,8 @@ pub trait DynColl<T: Elem>: Send + Sync {
     fn root(&self) -> Hash256;
     /// `as_ssz_bytes()` and `ssz_bytes_len()`.
     fn ssz(&self) -> (Vec<u8>, usize);
+    /// The static half of `Encode`: `is_ssz_fixed_len()` and `ssz_fixed_len()` of the type.
+    fn ssz_static(&self) -> (bool, usize);
     fn to_json(&self) -> Option<serde_json::Value>;
 
     // Same kind (and same configuration, which is always the case within a history).
@@ -153,6 +155,12 @@ macro_rules! common_methods {
         }
         fn ssz(&self) -> (Vec<u8>, usize) {
             (self.as_ssz_bytes(), self.ssz_bytes_len())
+        }
+        fn ssz_static(&self) -> (bool, usize) {
+            (
+                <Self as Encode>::is_ssz_fixed_len(),
+                <Self as Encode>::ssz_fixed_len(),
+            )
         }
         fn to_json(&self) -> Option<serde_json::Value> {
             // Both serializer paths must agree: the in-memory `Value` serializer (exact-size
